@@ -39,6 +39,7 @@ element		:	^					opLineStart
 			|	simple +?			simple SplitNext
 			|	simple *			SplitNext simple SplitJump
 			|	simple *?			SplitJump simple Jump
+			|	nullable *?			SplitJump nullable SplitNext
 
 simple		:	.					opAny
 			|	char	 			Char c
@@ -246,7 +247,12 @@ func (co *compiler) element() {
 			co.emitOff(opSplitJump, -pn)
 			co.rightAnchor = false
 		} else if co.match("*?") {
-			co.emitOff(opJump, -pn-3)
+			if co.nullable(start, make([]bool, len(co.prog))) {
+				//  compile x*? as (x+?)?? as per golang.org/issue/46123
+				co.emitOff(opSplitNext, -pn)
+			} else {
+				co.emitOff(opJump, -pn-3)
+			}
 			co.insert(start, opSplitJump, pn+6)
 			co.rightAnchor = false
 		} else if co.match("*") {
@@ -256,6 +262,30 @@ func (co *compiler) element() {
 			co.rightAnchor = false
 		}
 	}
+}
+
+// nullable returns whether prog[i:] can match the empty string
+func (co *compiler) nullable(i int, seen []bool) bool {
+	// 0 <= i because offsets can wrap if prog is too large
+	for 0 <= i && i < len(co.prog) && !seen[i] {
+		seen[i] = true
+		switch opType(co.prog[i]) {
+		case opJump:
+			i = co.target(i)
+		case opSplitJump, opSplitNext:
+			if co.nullable(co.target(i), seen) { // RECURSE
+				return true
+			}
+			i += 3
+		case opSave:
+			i += 2
+		case opStrStart, opStrEnd, opLineStart, opLineEnd, opWordStart, opWordEnd:
+			i++
+		default:
+			return false
+		}
+	}
+	return i >= len(co.prog)
 }
 
 func (co *compiler) quoted() {
